@@ -1025,7 +1025,7 @@ reg('C01', run_C01, ['Prop_C01.v'], I6RULE + 'non-trivial = distinct (grammar, i
 reg('C02', run_C02, ['Prop_C02.v'], I6RULE + 'non-trivial = distinct (grammar, sentence) of grammars whose model table has no cell with two candidates',
     technique='Coq theorem (completeness of the LALR table by induction on parse trees, lookahead-annotated certificate) + sentences of conflict-free grammars fed to the real parsers + correspondence at I2-I6',
     level_text='Proved in Coq: for the automaton built by the model, the executable DeRemer-Pennello lookaheads and the generated table, if no cell has two candidate actions then the LR machine accepts the yield of every valid parse tree with exactly its post-order as reductions (C02_complete), and so does the model pipeline as run, through the packed arrays and the array driver in every variant (C02_pipeline). The real parsers (5 variants) are run on every sentence up to the length bound and on sampled longer ones of every conflict-free corpus grammar; a rejected sentence is the failing input. C02_from_the_text: the same from the bytes of the file, the well-formedness of the grammar object being proved (C01_front_delivers_wellformed), not assumed.',
-    level_note=MODEL_NOTE + ' Hypothesis of C02_complete: grammar well-formedness facts and productivity (first of every sequence non-empty), established by yaccgo\'s own checks (C12).')
+    level_note=MODEL_NOTE + ' The hypotheses of C02_complete (grammar well-formedness facts, productivity) are proved of every grammar object the front-end model delivers (C02_from_the_text, C01_front_delivers_wellformed) and evaluated on the implementation\'s object on every run (wfcheck).')
 reg('C03', run_C03, ['Prop_C03.v'], BERULE + 'non-trivial = grammars with >= 2 reductions one of which has >= 2 lookaheads; plus the real Digraph on random relations with cycles',
     technique='Coq theorem (executable DeRemer-Pennello sets = LR(1) lookaheads over all access paths, both inclusions) + comparison of the implementation\'s LA sets and warnings with the proved model on every corpus grammar',
     level_text="Proved in Coq (C03_lookahead): for every grammar meeting the well-formedness facts, the model's lookahead list of every reduction in every state equals {t | exists access path gamma to the state with the LR(1) item [A -> alpha ., t] valid for gamma}, i.e. the union over the canonical LR(1) states with that core; the same for the lookahead sets the model pipeline actually computes and feeds to the table generator (C03_pipeline); a warning is recorded for a cell of the pipeline's tables exactly when its candidate actions - the shift and the reductions whose lookahead set contains the symbol - meet a pair in the pairwise resolution that lacks a precedence, and such a cell has at least two candidates, i.e. is an LALR(1) conflict (C03_warning, C03_warning_pipeline, C03_warning_needs_conflict). The implementation's LA sets and warning multiset are compared with the model on every corpus grammar; the real Digraph/Traverse/Union runs against transitive union on random relations with cycles (slices built as yaccgo builds them). C03_from_the_text: the lookahead sets computed for the grammar object built from a text are exactly the LALR(1) sets, with no hypothesis on the object (its well-formedness is proved: C01_front_delivers_wellformed).",
@@ -1040,7 +1040,7 @@ reg('C05', run_C05, ['Prop_C05.v'], BERULE + 'evaluations = cells looked up thro
     level_note=MODEL_NOTE)
 reg('C06', run_C06, ['Prop_C06.v'], I6RULE + 'evaluations = rejected runs; non-trivial = distinct (conflict-free grammar, non-sentence) whose error position is compared with an Earley viable-prefix computation',
     technique='Coq theorems (no Crash / nil return under the table certificate; a token is shifted only if input-so-far plus that token begins a sentence: soundness of LR(1) items over access paths + parse trees on the stack + productivity) + outcome classification and fetch count of every rejected run of the real parsers vs Earley viable-prefix computation and the model',
-    level_text='Proved in Coq: under the certificate satisfied by generated tables the LR machine never ends in Crash or a nil return; it accepts, reports a syntax error or is still running (C06_no_crash), also for the model pipeline as run in every variant (C06_pipeline); and the error is reported at the first bad token: after any number of steps from the initial configuration, for ANY table satisfying the certificate (any lookahead sets, any precedences), if the next action shifts the next token then the input read so far followed by that token begins a sentence - so a token that cannot continue any sentence is never shifted, and because an Error cell stops the machine, nothing after it is requested (C06_never_shifts_a_bad_token, via C06_shift_extends_viable_prefix: the stack symbols plus a shiftable symbol are a viable prefix; C06_step_is_run ties the step function to the machine of the other theorems). Every rejected run of the five real variants must use the documented error channel; for conflict-free grammars the number of tokens requested at the error must be (first token that cannot continue a sentence)+1 as computed by an Earley recogniser; every accepted run is re-executed by the verified checker. Halting on non-sentences (finitely many reductions before the error) is checked by a reduction limit, not proved (partial).',
+    level_text='Proved in Coq: under the certificate satisfied by generated tables the LR machine never ends in Crash or a nil return; it accepts, reports a syntax error or is still running (C06_no_crash), also for the model pipeline as run in every variant (C06_pipeline); and the error is reported at the first bad token: after any number of steps from the initial configuration, for ANY table satisfying the certificate (any lookahead sets, any precedences), if the next action shifts the next token then the input read so far followed by that token begins a sentence - so a token that cannot continue any sentence is never shifted, and because an Error cell stops the machine, nothing after it is requested (C06_never_shifts_a_bad_token, via C06_shift_extends_viable_prefix: the stack symbols plus a shiftable symbol are a viable prefix; C06_step_is_run ties the step function to the machine of the other theorems). Every rejected run of the five real variants must use the documented error channel; for conflict-free grammars the number of tokens requested at the error must be (first token that cannot continue a sentence)+1 as computed by an Earley recogniser; every accepted run is re-executed by the verified checker. Halting on non-sentences (finitely many reductions before the error) is checked by a reduction limit, not proved (partial). C06_from_the_text: the same for the table computed from the bytes of a grammar file, every hypothesis (table certificate, well-formed grammar object, every symbol productive) discharged for every text on which the generator model delivers tables.',
     level_note=MODEL_NOTE + ' The Earley recogniser (python) is untrusted search: a case it flags is confirmed against the model.')
 reg('C07', run_C07, ['Prop_C07.v'], I6RULE + 'actions: $$ = (c + sum coef_i*$i) mod 1000003 with random coefficients and random union fields per symbol; non-trivial = accepted inputs whose derivation uses a rule of length >= 2',
     technique='Coq theorem (value returned = bottom-up evaluation over the parse tree, Dollar slice addressing for every rule length) + verified replay of every accepted run of the real parsers with random linear actions',
